@@ -121,7 +121,6 @@ impl MT940 {
 
         verify_parser_complete(&parser)?;
 
-
         Ok(MT940 {
             field_20,
             field_21,
